@@ -441,6 +441,16 @@ QuickSlice(sh, st, e, pos) ==
    \/ (sh.shape \in {"direct", "chain3", "wholefile", "child", "childdeep", "selfcycle", "sameroot", "dangling"} /\ e \in {"data", "reader"} /\ st \in {"plain", "abspath"})
    \/ (sh.shape \in {"direct", "chain3", "wholefile", "child", "backref"} /\ e = "uri_remote" /\ st \in {"plain", "updown"} /\ pos = "op")
 
+(* thorough: the full product for the shapes of rounds 1-5; the large families added in round 6 and the Loader histories are    *)
+(* combined with the entry points that differ in how locations are formed, not with every one of the fourteen                    *)
+NewFamilies == Heavy \cup {"childpair", "childpair_root", "childpair_local", "pi_childpair", "deepback2"}
+ThoroughSlice(sh, st, e, pos) ==
+   /\ (sh.shape \in NewFamilies => e \in {"file_abs", "file_rel", "datapath", "data", "uri_remote"})
+   /\ (sh.shape \in NewFamilies /\ st \notin RelStyles => e = "file_abs")
+   /\ (sh.shape \in {"deepback", "deepback_named"} /\ ~sh.canon => st = "plain" /\ e \in {"file_abs", "data"})
+   /\ (e \in HistoryEntries => st = "plain" /\ sh.shape \notin NewFamilies
+                                /\ sh.shape \notin {"samename_otherkind", "collision", "childlocal_shadow", "childdangling_whole", "whole_localdangling", "childdeep_whole"})
+
 CONSTANT Allows      \* settings of IsExternalRefsAllowed to generate
 VARIABLE case
 (* pos: where the root makes its reference: in an operation ("op"), as a component of its own ("comp"), or in TWO  *)
@@ -450,6 +460,7 @@ Init == \E k \in Kinds \cup {PI}, st \in Styles, e \in Entries, pos \in {"op", "
              /\ (k = PI => pos = "op")
              /\ (pos = "op2" => sh.shape \in {"direct", "chain3", "child", "childlocal", "wholefile", "selfcycle", "backref"} /\ e \in {"file_abs", "file_rel"})
              /\ (Tier = "quick" => QuickSlice(sh, st, e, pos))
+             /\ (Tier = "thorough" => ThoroughSlice(sh, st, e, pos))
              /\ (e = "uri_remote" => st \in RelStyles)
              /\ (e \in {"file_abs_retry", "resolvein_retry"} => al)
              /\ (e \in HistoryEntries => st \in RelStyles \cup {"abspath"} /\ pos # "op2")
